@@ -363,6 +363,21 @@ def batch_edge(rng, cap):
     return max(0, base * k + rng.choice([0, 0, 0, -1, 1]))
 
 
+# flat data dicts that Python calls equal (and hashes alike) although they are different JSON documents
+EQUAL_LOOKING = [[{"flag": 1, "status": "afk"}, {"flag": True, "status": "afk"}, {"flag": 1.0, "status": "afk"}],
+                 [{"load": 0.0}, {"load": -0.0}, {"load": 0}, {"load": False}],
+                 [{"ticks": 2**53}, {"ticks": float(2**53)}],
+                 [{"n": 10**15, "k": "v"}, {"n": 1e15, "k": "v"}]]
+
+
+def equal_looking_pack(rng):
+    """specs' data for a handful of events whose data dicts are ==-equal in Python but differ as JSON (1 / 1.0 / true,
+    0.0 / -0.0 / 0 / false, 2**53 as int / float), in random order, some repeated"""
+    fam = rng.choice(EQUAL_LOOKING)
+    out = [copy.deepcopy(rng.choice(fam)) for _ in range(rng.randrange(2, 7))]
+    return out
+
+
 ID_MODES = ["unique", "unique", "unique", "some", "some", "none", "few", "same", "across"]
 
 
